@@ -244,6 +244,21 @@ def analyzeLevel (c : Cat) : Nat → List (String × List ColInfo) → List Scop
           let l ← fromItem fuel (it.get "Larg")
           let r ← fromItem fuel (it.get "Rarg")
           pure (l.1 ++ r.1, l.2 ++ r.2)
+        | "RangeFunction" =>
+          -- a set-returning function in FROM that yields ONE column, named after the alias (or the first name of
+          -- the alias' column list); every other form is outside the oracle
+          let fname := match (it.get "Functions").items with
+            | [one] => (match one.items with
+              | call :: _ => ((call.get "Func").get "Name").strVal
+              | [] => "")
+            | _ => ""
+          let single := ["generate_series", "unnest", "regexp_split_to_table", "json_array_elements", "json_array_elements_text",
+            "jsonb_array_elements", "jsonb_array_elements_text", "string_to_table", "generate_subscripts"]
+          if (it.get "Ordinality").boolVal || (it.get "IsRowsfrom").boolVal || !(it.get "Coldeflist").items.isEmpty || !single.contains fname then
+            .error (.unsupported "range function form")
+          else match aliasOf it with
+            | some a => .ok ([{ qual := a, cols := [{ name := (aliasColNames it).headD a, named := true }] }], [])
+            | none => .error (.unsupported "function in FROM without alias")
         | k => .error (.unsupported s!"from item {k}")
     let fromList : List Node := match stmt.kind with
       | "SelectStmt" => (stmt.get "FromClause").items
